@@ -12,17 +12,25 @@ use quick_xml::reader::Reader;
 use serde::{Deserialize, Serialize};
 use serde_json::Value;
 
-pub const NAMES: &[&str] = &[
-    "a", "ab", "b", "a:b", "\u{e9}",
+pub const NAMES: &[&[u8]] = &[
+    b"a", b"ab", b"b", b"a:b", "\u{e9}".as_bytes(),
     // long names, one a proper prefix of the other, around the 16 / 32 / 64 byte marks
-    "n234567890123456", "n2345678901234567", "a-name-that-is-longer-than-thirty-two-bytes", "a-name.of.more.than.sixty-four.bytes.so.that.the.name.buffer.grows.",
+    b"n234567890123456", b"n2345678901234567", b"a-name-that-is-longer-than-thirty-two-bytes", b"a-name.of.more.than.sixty-four.bytes.so.that.the.name.buffer.grows.",
     // 127, 128, 129 and 301 bytes (one-byte length encodings, u8 arithmetic)
-    "m012345678901234567890123456789012345678901234567890123456789012345678901234567890123456789012345678901234567890123456789abcdef",
-    "m012345678901234567890123456789012345678901234567890123456789012345678901234567890123456789012345678901234567890123456789abcdefg",
-    "m012345678901234567890123456789012345678901234567890123456789012345678901234567890123456789012345678901234567890123456789abcdefgh",
-    "wabcdefghijabcdefghijabcdefghijabcdefghijabcdefghijabcdefghijabcdefghijabcdefghijabcdefghijabcdefghijabcdefghijabcdefghijabcdefghijabcdefghijabcdefghijabcdefghijabcdefghijabcdefghijabcdefghijabcdefghijabcdefghijabcdefghijabcdefghijabcdefghijabcdefghijabcdefghijabcdefghijabcdefghijabcdefghijabcdefghij",
+    b"m012345678901234567890123456789012345678901234567890123456789012345678901234567890123456789012345678901234567890123456789abcdef",
+    b"m012345678901234567890123456789012345678901234567890123456789012345678901234567890123456789012345678901234567890123456789abcdefg",
+    b"m012345678901234567890123456789012345678901234567890123456789012345678901234567890123456789012345678901234567890123456789abcdefgh",
+    b"wabcdefghijabcdefghijabcdefghijabcdefghijabcdefghijabcdefghijabcdefghijabcdefghijabcdefghijabcdefghijabcdefghijabcdefghijabcdefghijabcdefghijabcdefghijabcdefghijabcdefghijabcdefghijabcdefghijabcdefghijabcdefghijabcdefghijabcdefghijabcdefghijabcdefghijabcdefghijabcdefghijabcdefghijabcdefghijabcdefghij",
+    // names that are not valid UTF-8 and differ in one undecodable byte: matching is on BYTES, whatever the decoder makes of them
+    b"caf\xe9", b"caf\xe8",
 ];
-pub const TRAIL: &[&str] = &["", " ", "\t\n", "  "];
+pub const TRAIL: &[&str] = &["", " ", "\t\n", "  ",
+    // more than blanks after the first word: the NAME of such an end tag is all of it (minus trailing blanks when trimmed)
+    " b", "\ta ", " a"];
+
+fn trail_idx() -> impl Strategy<Value = u8> {
+    prop_oneof![10 => 0u8..4, 1 => 4u8..7]
+}
 
 #[derive(Clone, Debug, Serialize, Deserialize, PartialEq)]
 pub enum Item {
@@ -53,7 +61,7 @@ pub fn info() -> PropInfo {
         id: "C04",
         run,
         replay,
-        rule: "cases = (tag sequence over names {a, ab, b, a:b, e-acute} with start/end(with trailing blanks)/empty/text items, not necessarily balanced; initial setting of check_end_names, allow_unmatched_ends, trim_markup_names_in_closing_tags, expand_empty_elements; flips of those switches before chosen read calls; slice or buffered source; after some start events the element is skipped with read_to_end / read_to_end_into, whose outcome (span or error) and final position must equal reading event by event on a clone of the reader). Oracle: a stack model fed call by call with the configuration in force at that call. Exhaustive for <=5 items over two names x all 16 static settings and for <=4 items x every single flip; proptest histories of up to 40 items with up to 6 flips. Non-trivial = a flip happens after at least one Start and at least one End is judged with name checking on after that flip. Names of 16..301 bytes (127/128/129 included) and nesting 60..300 deep occur among the generated histories.",
+        rule: "cases = (tag sequence over names {a, ab, b, a:b, e-acute} with start/end(with trailing blanks)/empty/text items, not necessarily balanced; initial setting of check_end_names, allow_unmatched_ends, trim_markup_names_in_closing_tags, expand_empty_elements; flips of those switches before chosen read calls; slice or buffered source; after some start events the element is skipped with read_to_end / read_to_end_into, whose outcome (span or error) and final position must equal reading event by event on a clone of the reader). Oracle: a stack model fed call by call with the configuration in force at that call. Exhaustive for <=5 items over two names x all 16 static settings and for <=4 items x every single flip; proptest histories of up to 40 items with up to 6 flips. Non-trivial = a flip happens after at least one Start and at least one End is judged with name checking on after that flip. Names of 16..301 bytes (127/128/129 included) and nesting 60..300 deep occur among the generated histories. Two of the names are not valid UTF-8 and differ in one undecodable byte (matching is on bytes, whatever the decoder makes of them); some end tags carry more than blanks after the first word (`</a b>`, `</a\ta >`): the name of such a tag is all of it.",
         assumptions: &["whether an end tag reported as mismatched closes the innermost element is not fixed by the property: both continuations are accepted (set of possible stacks)", "the synthesized End of an expanded empty element is emitted whatever the switches are at that moment"],
         level: "exploration",
         variants: &["full"],
@@ -65,29 +73,29 @@ fn c04_skip(skips: &[u8], k: usize) -> bool {
 }
 
 pub fn render(items: &[Item]) -> Vec<u8> {
-    let mut s = String::new();
+    let mut s: Vec<u8> = Vec::new();
     for it in items {
         match it {
             Item::Start(n) => {
-                s.push('<');
-                s.push_str(NAMES[*n as usize % NAMES.len()]);
-                s.push('>');
+                s.push(b'<');
+                s.extend_from_slice(NAMES[*n as usize % NAMES.len()]);
+                s.push(b'>');
             }
             Item::End(n, t) => {
-                s.push_str("</");
-                s.push_str(NAMES[*n as usize % NAMES.len()]);
-                s.push_str(TRAIL[*t as usize % TRAIL.len()]);
-                s.push('>');
+                s.extend_from_slice(b"</");
+                s.extend_from_slice(NAMES[*n as usize % NAMES.len()]);
+                s.extend_from_slice(TRAIL[*t as usize % TRAIL.len()].as_bytes());
+                s.push(b'>');
             }
             Item::Empty(n) => {
-                s.push('<');
-                s.push_str(NAMES[*n as usize % NAMES.len()]);
-                s.push_str("/>");
+                s.extend_from_slice(b"<");
+                s.extend_from_slice(NAMES[*n as usize % NAMES.len()]);
+                s.extend_from_slice(b"/>");
             }
-            Item::Text => s.push('t'),
+            Item::Text => s.push(b't'),
         }
     }
-    s.into_bytes()
+    s
 }
 
 pub fn check(c: &Case) -> Verdict {
@@ -201,6 +209,9 @@ pub fn check(c: &Case) -> Verdict {
                     };
                     let same = match (&emu_out, &real) {
                         (Ok(a), Ok(b)) => a == b,
+                        // the missing-end error carries the DECODED name; for a name that cannot be decoded the
+                        // call reports the decoding failure instead - still an error at the same position
+                        (Err(Ev::MissingEndTag(_)), Err(Ev::Other(m))) if std::str::from_utf8(&name).is_err() && m.starts_with("Encoding(") => true,
                         (Err(a), Err(b)) => a == b,
                         _ => false,
                     };
@@ -323,13 +334,13 @@ fn static_bits(k: u64) -> u8 {
 }
 
 fn name_idx() -> impl Strategy<Value = u8> {
-    prop_oneof![16 => 0u8..5, 2 => 5u8..9, 1 => 9u8..13]
+    prop_oneof![16 => 0u8..5, 2 => 5u8..9, 1 => 9u8..13, 3 => 13u8..15]
 }
 
 fn item_strategy() -> impl Strategy<Value = Item> {
     prop_oneof![
         4 => name_idx().prop_map(Item::Start),
-        4 => (name_idx(), 0u8..4).prop_map(|(n, t)| Item::End(n, t)),
+        4 => (name_idx(), trail_idx()).prop_map(|(n, t)| Item::End(n, t)),
         2 => name_idx().prop_map(Item::Empty),
         1 => Just(Item::Text),
     ]
@@ -359,7 +370,7 @@ fn deep_strategy() -> impl Strategy<Value = Vec<Item>> {
 
 /// mostly balanced documents, then perturbed: mismatches become rare enough for deep nesting
 fn doc_strategy() -> impl Strategy<Value = Vec<Item>> {
-    prop::collection::vec((name_idx(), 0u8..4, 0u8..10), 0..20).prop_flat_map(|plan| {
+    prop::collection::vec((name_idx(), trail_idx(), 0u8..10), 0..20).prop_flat_map(|plan| {
         // build a balanced skeleton from a plan of (name, trail, action)
         let mut items = vec![];
         let mut stack: Vec<u8> = vec![];
